@@ -1,8 +1,93 @@
 /-
-  C08 — property theorems (see DESIGN.md §5 C08).
+  C08 — what `Paragraph.WriteTo` writes is read back by the paragraph reader with the same
+  fields and the same logical lines.
+  Property theorems only; lemmas live in GoDebian/Lemmas/Deb822Write*.lean.
 -/
 import GoDebian.Model.Deb822
 import GoDebian.Spec.Deb822
+import GoDebian.Spec.Deb822Write
+import GoDebian.Lemmas.Deb822WriteDoc
 
 namespace GoDebian.Props.C08
+open GoDebian GoDebian.Deb822 GoDebian.Spec.Deb822Write
+
+/-- A text paragraph used as the witness below: a plain field, a multi-line field with an
+    empty line (written " ."), a field whose first line starts with a blank (written on a
+    continuation line after an empty first line), an empty value. -/
+def sample : Paragraph :=
+  let pkg := Bytes.ofString "Package"
+  let desc := Bytes.ofString "Description"
+  let note := Bytes.ofString "X-Note"
+  let tag := Bytes.ofString "Tag"
+  ⟨[pkg, desc, note, tag],
+   [(pkg, Bytes.ofString "hello"),
+    (desc, Bytes.ofString "short text\n\n  indented: line\nlast\n"),
+    (note, Bytes.ofString "  starts with blanks\nmore"),
+    (tag, [])]⟩
+
+example : textPara sample = true ∧ sample.order ≠ [] ∧
+    sample.write = Bytes.ofString
+      "Package: hello\nDescription: short text\n .\n   indented: line\n last\nX-Note: \n   starts with blanks\n more\nTag: \n" := by
+  decide +kernel
+
+/-- the written form never contains an empty or white-space-only line inside a paragraph -/
+theorem C08_no_blank_line (p : Paragraph) (h : textPara p = true) :
+    ∀ l ∈ physLines p.write, blankLine l = false := by
+  have hs := Lemmas.Deb822Write.textPara_spec h
+  rw [Lemmas.Deb822Write.physLines_write p (fun k hk => (hs.2.1 k hk).1.2.2.1)]
+  exact Lemmas.Deb822Write.not_blank_paraLines hs.2.1
+
+example : (physLines sample.write).length = 9 ∧ blankLine (Bytes.ofString "  \t\r\n") = true := by
+  decide +kernel
+
+/-- it reads back as one paragraph with the same fields in the same order and the same
+    logical lines per field -/
+theorem C08_read_write (p : Paragraph) (h : textPara p = true) (hne : p.order ≠ []) :
+    ∃ q, all p.write = .ok [q] ∧ q.order = p.order ∧
+      ∀ k ∈ p.order, valueLines (q.get k) = valueLines (p.get k) :=
+  ⟨Lemmas.Deb822Write.reread p,
+    Lemmas.Deb822Write.all_write (Lemmas.Deb822Write.rereadable_of_textPara h hne), rfl,
+    fun _ hk => Lemmas.Deb822Write.valueLines_get_reread hk
+      ((Lemmas.Deb822Write.textPara_spec h).2.2 _ hk)⟩
+
+/-- The values themselves may differ by the trailing newline: "…\nmore" comes back as
+    "…\nmore\n"; the logical lines do not. -/
+example :
+    all sample.write = .ok [⟨sample.order,
+      [(Bytes.ofString "Package", Bytes.ofString "hello"),
+       (Bytes.ofString "Description", Bytes.ofString "short text\n\n  indented: line\nlast\n"),
+       (Bytes.ofString "X-Note", Bytes.ofString "  starts with blanks\nmore\n"),
+       (Bytes.ofString "Tag", [])]⟩] := by
+  decide +kernel
+
+/-- The excluded case (recorded finding `leading-empty-line`): an empty first line followed
+    by further lines is written as "k: \n more", which reads back without the empty line. -/
+example :
+    let p : Paragraph := ⟨[[107]], [([107], Bytes.ofString "\nmore")]⟩
+    noLeadingEmptyLine (p.get [107]) = false ∧
+    all p.write = .ok [⟨[[107]], [([107], Bytes.ofString "more\n")]⟩] := by
+  decide +kernel
+
+/-- paragraphs written one after another (blank line between, as the encoder does) read
+    back as the same number of paragraphs -/
+theorem C08_count (ps : List Paragraph) (h : ∀ p ∈ ps, textPara p = true ∧ p.order ≠ []) :
+    ∃ qs, all (writeAll ps) = .ok qs ∧ qs.length = ps.length :=
+  ⟨ps.map Lemmas.Deb822Write.reread,
+    Lemmas.Deb822Write.all_writeAll ps
+      (fun p hp => Lemmas.Deb822Write.rereadable_of_textPara (h p hp).1 (h p hp).2),
+    List.length_map _⟩
+
+example :
+    let ps := [sample, ⟨[[97]], [([97], [98])]⟩, sample]
+    (∀ p ∈ ps, textPara p = true ∧ p.order ≠ []) ∧
+      (all (writeAll ps)).toOption.map List.length = some 3 := by
+  decide +kernel
+
+/-- The non-emptiness hypothesis cannot be dropped: a paragraph without fields writes
+    nothing, and the two blank lines around it separate only two paragraphs. -/
+example :
+    let ps := [sample, ⟨[], []⟩, sample]
+    textPara ⟨[], []⟩ = true ∧ (all (writeAll ps)).toOption.map List.length = some 2 := by
+  decide +kernel
+
 end GoDebian.Props.C08
